@@ -499,7 +499,7 @@ def inst_rechunk_spec(kind):
             hi = 6
         else:
             hi = None
-        blocks = (2,) if kind in ("auto1", "int", "minus1", "tuple") else (2, 2)
+        blocks = (2,) if kind in ("auto1", "int", "minus1", "tuple", "flat1d") else (2, 2)
         x = catalog.source(w, E, "x", blocks, hi=hi)
         shape, cur = x.node.shape, x.node.chunks
         limit = None
@@ -516,6 +516,10 @@ def inst_rechunk_spec(kind):
         elif kind == "tuple":
             spec = (tuple(E.int(f"t{i}", 1) for i in range(3)),)
             E.assume(sum(spec[0]) == shape[0])
+        elif kind == "flat1d":
+            # the block sizes of a 1-d array given flat, x.rechunk((2, 3)): normalize_chunks reads them as one axis' blocks
+            spec = tuple(E.int(f"t{i}", 1) for i in range(2))
+            E.assume(sum(spec) == shape[0])
         else:  # dict-none: keep axis 0, one block on axis 1
             spec = {0: None, 1: -1}
         for ns in w.ns.values():
@@ -601,6 +605,6 @@ def instances(tier):
         out.append(inst_validate(mo, mn))
     for k in ("plain", "elemwise", "transpose", "rechunk-rechunk"):
         out.append(inst_balance(k))
-    for k in ("auto1", "int", "minus1", "tuple", "dict-none") + (() if q else ("dict-auto",)):
+    for k in ("auto1", "int", "minus1", "tuple", "flat1d", "dict-none") + (() if q else ("dict-auto",)):
         out.append(inst_rechunk_spec(k))
     return out
